@@ -277,6 +277,11 @@ def check_programs(run, specs, label, mutate_every=0):
             run.tally("cutoffs", sp["lang"])
             continue
         if "exception" in r:      # belongs to C18; counted here
+            frames = [l for l in r["exception"].get("traceback", "").splitlines() if l.lstrip().startswith('File "')]
+            if frames and ("c01_plugin.py" in frames[-1] or os.path.join("harness", "export") in frames[-1]):
+                # raised by the recording wrapper itself, not by the generator: machinery error, never data
+                raise common.HarnessError("c01_plugin raised inside a generator run %s: %s: %s" % (
+                    replay_key(sp), r["exception"]["type"], r["exception"]["msg"][:200]))
             run.tally("generator_exceptions", "%s:%s" % (sp["lang"], r["exception"]["type"]))
             continue
         exp = r["stages"]["gen"]["export"]
